@@ -81,9 +81,10 @@ Predict(l) ==
 Verdict(l, f) ==
     CASE f = "none" -> "answered"
       [] f \in {"wrongType", "missingFeatureDim", "missingSampleDim", "extraDim", "renamedDim",
-                "shiftedCoord", "revaluedCoord", "droppedVar", "wrongListLen", "datasetForArray"} -> "refused"
+                "shiftedCoord", "revaluedCoord", "droppedVar", "wrongListLen"} -> "refused"
       [] f = "extraVar" -> "answered"                    \* a Dataset carrying additional variables is a valid call
       [] f = "permutedCoordSameValues" -> "either"       \* same labels in another order: not classified
+      [] f = "datasetForArray" -> "either"               \* same data wrapped in a one-variable Dataset: not classified
 
 FaultApplies(l, f) ==
     CASE f \in {"droppedVar", "extraVar"} -> l.kind \in {"DS2same", "DS2diff"} \/ (f = "extraVar" /\ l.kind = "DS1")
@@ -153,7 +154,7 @@ C07_LayoutInvariant ==
 \* C17: every listed fault is refused, listed non-faults are answered
 C17_FaultsRefused ==
     Done => /\ (lay.fault \in {"wrongType", "missingFeatureDim", "missingSampleDim", "extraDim", "renamedDim",
-                               "shiftedCoord", "revaluedCoord", "droppedVar", "wrongListLen", "datasetForArray"})
+                               "shiftedCoord", "revaluedCoord", "droppedVar", "wrongListLen"})
                    => pred.verdict = "refused"
             /\ (lay.fault \in {"none", "extraVar"}) => pred.verdict = "answered"
 =============================================================================
